@@ -6,6 +6,9 @@ def _hs(maxlen, tiers, tag, timeout):
     return [
       H("put_producer_" + tag, F, "h_put", ["ringbuf_put"], defs=d + ["-DROLE_PRODUCER"], shadow=True, timeout=timeout, tiers=tiers,
         solvers=("cadical", "minisat"), replayable=False, note="thread-modular query: counterexample states include an interference schedule, no native replay"),
+      H("putchar_producer_" + tag, F, "h_putchar", ["ringbuf_putchar"], defs=d + ["-DROLE_PRODUCER"], shadow=True, timeout=timeout, tiers=tiers, unwind=3,
+        replace_calls=["ringbuf_put:ringbuf_put_contract"], solvers=("cadical", "minisat"), replayable=False,
+        note="modular: ringbuf_put substituted by its contract (enforced by put_producer); retry loop closed by the loop-cut rule; termination not claimed"),
       H("get_consumer_" + tag, F, "h_get", ["ringbuf_get"], defs=d + ["-DROLE_CONSUMER"], shadow=True, timeout=timeout, tiers=tiers,
         solvers=("cadical", "minisat"), replayable=False, note="thread-modular query: counterexample states include an interference schedule, no native replay"),
       H("empty_consumer_" + tag, F, "h_empty", ["ringbuf_empty"], defs=d + ["-DROLE_CONSUMER"], shadow=True, timeout=timeout, tiers=tiers,
